@@ -68,6 +68,20 @@ fn check_word_all_statuses(ctx: &Ctx, word: &[u8]) -> &'static str {
         }
     }
     STATUS_PATTERN.with(|sp| sp.borrow_mut().clear());
+    // indistinguishable radials (the same radial delivered k times): the grouping must keep the
+    // count of every run
+    let same: Vec<Radial> = word.iter().map(|e| radial(7, 1, *e)).collect();
+    match guarded(move || Sweep::from_radials(same)) {
+        Caught::Ret(sweeps) => {
+            let got: Vec<(u8, usize)> = sweeps.iter().map(|s| (s.elevation_number(), s.radials().len())).collect();
+            let exp: Vec<(u8, usize)> = ref_groups(word).iter().map(|g| (g.0, g.1.len())).collect();
+            if got != exp {
+                ctx.fail("from_radials:identical_radials_not_conserved", || format!("word {:?} of indistinguishable radials: run lengths {:?}, expected {:?}", word, got, exp), || json!({"op": "from_radials", "word": word}));
+                out = "mismatch";
+            }
+        }
+        Caught::Panic(p) => ctx.fail(&format!("from_radials:panic:{}", panic_class(&p)), || p.clone(), || json!({"op": "from_radials", "word": word})),
+    }
     out
 }
 
@@ -258,14 +272,18 @@ struct MergeCase {
     /// spare capacity of the two radial vectors: (0,0) exact, else extra elements reserved
     /// (allocation capacity is not part of a sweep's value and must not influence the result)
     spare: (usize, usize),
+    /// true: every radial carries the same collection time, so radials with equal azimuth number
+    /// are indistinguishable objects (the same radial delivered twice); the union still has
+    /// len(first) + len(second) members
+    identical: bool,
 }
 
 fn check_merge(ctx: &Ctx, c: &MergeCase) -> &'static str {
-    let wit = || json!({"op": "merge", "a": c.a, "b": c.b, "ea": c.ea, "eb": c.eb, "spare": [c.spare.0, c.spare.1]});
+    let wit = || json!({"op": "merge", "a": c.a, "b": c.b, "ea": c.ea, "eb": c.eb, "spare": [c.spare.0, c.spare.1], "identical": c.identical});
     let mut ra: Vec<Radial> = Vec::with_capacity(c.a.len() + c.spare.0);
-    ra.extend(c.a.iter().enumerate().map(|(i, az)| radial(100 + i as i64, *az, c.ea)));
+    ra.extend(c.a.iter().enumerate().map(|(i, az)| radial(if c.identical { 7 } else { 100 + i as i64 }, *az, c.ea)));
     let mut rb: Vec<Radial> = Vec::with_capacity(c.b.len() + c.spare.1);
-    rb.extend(c.b.iter().enumerate().map(|(i, az)| radial(200 + i as i64, *az, c.eb)));
+    rb.extend(c.b.iter().enumerate().map(|(i, az)| radial(if c.identical { 7 } else { 200 + i as i64 }, *az, c.eb)));
     let mut all: Vec<(u16, i64)> = ra
         .iter()
         .chain(rb.iter())
@@ -302,7 +320,9 @@ fn check_merge(ctx: &Ctx, c: &MergeCase) -> &'static str {
                 let mut a2 = all.clone();
                 g2.sort();
                 a2.sort();
-                let sig = if g2 != a2 {
+                let sig = if got.len() != all.len() {
+                    "merge:radial_count_not_conserved"
+                } else if g2 != a2 {
                     "merge:not_union"
                 } else if got.windows(2).any(|w| w[0].0 > w[1].0) {
                     "merge:not_sorted_by_azimuth"
@@ -418,10 +438,10 @@ pub fn run(ctx: &'static Ctx) -> (&'static str, Value, Vec<&'static str>) {
             let a = &ws[(idx / 2) % n];
             let b = &ws[(idx / 2) / n];
             let mut o = "ok";
-            for spare in [(0usize, 0usize), (0, a.len() + 2), (b.len() + 2, 0), (64, 64)] {
-                let c = MergeCase { a: a.clone(), b: b.clone(), ea: 4, eb: if same { 4 } else { 5 }, spare };
+            for (spare, identical) in [((0usize, 0usize), false), ((0, a.len() + 2), false), ((b.len() + 2, 0), false), ((64, 64), false), ((0, 0), true), ((3, 0), true)] {
+                let c = MergeCase { a: a.clone(), b: b.clone(), ea: 4, eb: if same { 4 } else { 5 }, spare, identical };
                 let r = check_merge(ctx, &c);
-                if r != "ok" || spare == (0, 0) {
+                if r != "ok" || (spare == (0, 0) && !identical) {
                     o = r;
                 }
                 st.eval();
@@ -444,7 +464,7 @@ pub fn run(ctx: &'static Ctx) -> (&'static str, Value, Vec<&'static str>) {
         ((1..=360).rev().collect::<Vec<u16>>(), (1..=360).collect::<Vec<u16>>()),
     ] {
         for same in [true, false] {
-            let c = MergeCase { a: a.clone(), b: b.clone(), ea: 9, eb: if same { 9 } else { 0 }, spare: (3, b.len() + a.len()) };
+            let c = MergeCase { a: a.clone(), b: b.clone(), ea: 9, eb: if same { 9 } else { 0 }, spare: (3, b.len() + a.len()), identical: false };
             let o = check_merge(ctx, &c);
             stats.eval();
             stats.outcome(&format!("merge_{o}"));
@@ -465,10 +485,10 @@ pub fn run(ctx: &'static Ctx) -> (&'static str, Value, Vec<&'static str>) {
         |i| format!("word#{i}(len {})", halpha[i].len()),
     );
     let mcases: Vec<MergeCase> = vec![
-        MergeCase { a: vec![3, 1, 2], b: vec![2, 2], ea: 1, eb: 1, spare: (0, 8) },
-        MergeCase { a: (1..=40).rev().collect(), b: (1..=40).collect(), ea: 2, eb: 2, spare: (50, 0) },
-        MergeCase { a: vec![1], b: vec![1], ea: 1, eb: 2, spare: (0, 0) },
-        MergeCase { a: vec![], b: vec![7, 7, 7], ea: 0, eb: 0, spare: (4, 4) },
+        MergeCase { a: vec![3, 1, 2], b: vec![2, 2], ea: 1, eb: 1, spare: (0, 8), identical: false },
+        MergeCase { a: (1..=40).rev().collect(), b: (1..=40).collect(), ea: 2, eb: 2, spare: (50, 0), identical: true },
+        MergeCase { a: vec![1], b: vec![1], ea: 1, eb: 2, spare: (0, 0), identical: false },
+        MergeCase { a: vec![], b: vec![7, 7, 7], ea: 0, eb: 0, spare: (4, 4), identical: true },
     ];
     let sm = history_check(
         ctx,
@@ -485,7 +505,7 @@ pub fn run(ctx: &'static Ctx) -> (&'static str, Value, Vec<&'static str>) {
     stats = stats.merge(sh).merge(sm);
 
     let mut cov = stats.coverage(
-        "stateright BFS+DFS over elevation words (every word over each alphabet up to the depth); invariant runs the real Sweep::from_radials in every state and compares with a reference grouping, plus split-differential from non-initial states; every word of length <= 6 and every long input is also checked under 7 radial-status patterns that vary independently of the elevation number; merge: full product of azimuth-word pairs x {same,different} elevation x four spare-capacity configurations of the two vectors. non-trivial = word with >=2 runs, or merge with >=2 radials; distinct by hash of the word/pair",
+        "stateright BFS+DFS over elevation words (every word over each alphabet up to the depth); invariant runs the real Sweep::from_radials in every state and compares with a reference grouping, plus split-differential from non-initial states; every word of length <= 6 and every long input is also checked under 7 radial-status patterns that vary independently of the elevation number; merge: full product of azimuth-word pairs x {same,different} elevation x four spare-capacity configurations of the two vectors, and again with indistinguishable radials (same collection time: the same radial delivered twice must still be counted twice). non-trivial = word with >=2 runs, or merge with >=2 radials; distinct by hash of the word/pair",
         true,
         json!({"models": model_reports, "merge_word_len": maxlen, "merge_alphabet": [1,2,3]}),
     );
@@ -508,11 +528,12 @@ pub fn replay(ctx: &'static Ctx, case: &Value) {
         Some("from_radials") | Some("from_radials_split") => {
             let w: Vec<u8> = case["word"].as_array().map(|a| a.iter().map(|x| x.as_u64().unwrap_or(0) as u8).collect()).unwrap_or_default();
             let o = check_word(ctx, &w, true);
+            let _ = check_word_all_statuses(ctx, &w);
             println!("replay from_radials word={:?} outcome={}", w, o);
         }
         Some("merge") => {
             let g = |k: &str| -> Vec<u16> { case[k].as_array().map(|a| a.iter().map(|x| x.as_u64().unwrap_or(0) as u16).collect()).unwrap_or_default() };
-            let c = MergeCase { a: g("a"), b: g("b"), ea: case["ea"].as_u64().unwrap_or(0) as u8, eb: case["eb"].as_u64().unwrap_or(0) as u8, spare: (case["spare"][0].as_u64().unwrap_or(0) as usize, case["spare"][1].as_u64().unwrap_or(0) as usize) };
+            let c = MergeCase { a: g("a"), b: g("b"), ea: case["ea"].as_u64().unwrap_or(0) as u8, eb: case["eb"].as_u64().unwrap_or(0) as u8, spare: (case["spare"][0].as_u64().unwrap_or(0) as usize, case["spare"][1].as_u64().unwrap_or(0) as usize), identical: case["identical"].as_bool().unwrap_or(false) };
             let o = check_merge(ctx, &c);
             println!("replay merge {:?} outcome={}", c, o);
         }
